@@ -178,6 +178,33 @@ def rpath_origin(ctx):
            ll.node, '')
 
 
+def link_words(ctx):
+    R = 'LINK-WORDS-KEPT'
+    ctx.rule(R, 'every word returned by _link_lib reaches the link line '
+             '(no de-duplication of words: -Wl,--whole-archive / '
+             '--no-whole-archive pairs and repeated -framework / -u words '
+             'must survive); forwarded options are merged without dropping '
+             'repeated words')
+    repo = ctx.repo
+    lf = repo.method('bfg9000.tools.cc.linker:CcLinker', 'lib_flags')
+    ext = [c for c in Q.calls(lf.node) if unparse(c.func) == 'flags.extend']
+    ok = len(ext) == 1 and isinstance(ext[0].args[0], ast.Call) and \
+        unparse(ext[0].args[0].func) == 'self._link_lib'
+    ctx.ob(R, 'CcLinker.lib_flags|extend(_link_lib(...))', ok, lf.node,
+           'the words of a library are filtered before they reach the link '
+           'line: {}'.format(unparse(ext[0].args[0])[:80] if ext else None))
+    up = repo.method(OPT + 'ForwardOptions', 'update')
+    ok = 'getattr(self, i).extend(getattr(rhs, i))' in unparse(up.node) and \
+        not any(isinstance(n, (ast.If, ast.IfExp)) for n in ast.walk(
+            up.node))
+    ctx.ob(R, 'ForwardOptions.update|plain-extend', ok, up.node,
+           'forwarded options are filtered while merging')
+    ap = repo.method(OPT + 'option_list', 'append')
+    ok = 'isinstance(option, safe_str.stringy_types) or' in unparse(ap.node)
+    ctx.ob(R, 'option_list.append|strings-never-deduplicated', ok, ap.node,
+           'raw string options are de-duplicated')
+
+
 def check(ctx):
     ctx.not_decided += [
         'that each executable/shared library links with the real toolchain '
@@ -186,3 +213,8 @@ def check(ctx):
         'dual/whole-archive libraries']
     forward_fields(ctx)
     rpath_origin(ctx)
+    link_words(ctx)
+    from . import c12
+    c12.relpath_impl(ctx)
+    from ..rules import pathops
+    pathops.check(ctx)
